@@ -145,7 +145,8 @@ def gen(rng):
         special = "no-referent"
     # GOT-style transfers: the edge of a call/jump is labelled indirect although it leads to the symbol's block
     indirect = [i for i, d in enumerate(text) if d["kind"] == "code" and d["insns"][-1][0] in ("jmp", "jcc", "call") and rng.random() < 0.15]
-    return {"case": case, "forwarding": fwd, "req": req, "special": special, "indirect": indirect}
+    return {"case": case, "forwarding": fwd, "req": req, "special": special, "indirect": indirect,
+            "odd_attrs": rng.randrange(1 << 30) if rng.random() < 0.3 else None}
 
 
 def check_case(ctx, g, pending):
@@ -193,6 +194,19 @@ def check_case(ctx, g, pending):
             if r:
                 ex = ivobj[e["interval"]].symbolic_expressions[e["off"]]
                 ivobj[e["interval"]].symbolic_expressions[e["off"]] = gtirb.SymAddrConst(ex.offset, ex.symbol, {inv_attr[a] for a in r[0]["external"]})
+    if g.get("odd_attrs") is not None:
+        # uses of defined symbols that carry attributes no ABI rule describes (GOT-relative access to a local
+        # symbol, a TLS offset): retargeting must leave such attributes alone
+        import random as _random
+
+        r2 = _random.Random(g["odd_attrs"])
+        Attr = gtirb.SymbolicExpression.Attribute
+        for e in mi["exprs"]:
+            if not e["addraddr"] and refs.get(e["syms"][0]) and refs[e["syms"][0]][0] in ("c", "d") and r2.random() < 0.4:
+                ex = ivobj[e["interval"]].symbolic_expressions[e["off"]]
+                ivobj[e["interval"]].symbolic_expressions[e["off"]] = gtirb.SymAddrConst(
+                    ex.offset, ex.symbol, r2.choice([{Attr.GOT, Attr.PCREL}, {Attr.TPOFF}, {Attr.PLT}]))
+        ctx.count("odd-attributes")
     before = irdump.dump_ir(m, idm)
     fwd0 = sorted([idm.of(a), idm.of(b)] for a, b in (A.symbol_forwarding.get(m) or {}).items())
     ctx.case(payload, sample={"req": g["req"], "pie": case["binary_type"]} if len(ctx.samples) < 4 else None, nontrivial=True)
@@ -353,7 +367,62 @@ def flush(ctx, pending):
     pending.clear()
 
 
+def gen_with_deletion(rng):
+    text = [
+        {"kind": "code", "func": 0, "entry": True, "insns": [["nop"], ["call", "A"]], "syms": [{"name": "main", "at_end": False}]},
+        {"kind": "code", "func": 0, "insns": [["ret"]], "syms": [{"name": "m2", "at_end": False}]},
+        {"kind": "code", "func": 1, "entry": True, "insns": [["nop"]] * rng.randint(1, 2), "syms": [{"name": "A", "at_end": False}]},
+        {"kind": "code", "func": 1, "insns": [["ret"]], "syms": [{"name": "A2", "at_end": False}]},
+        {"kind": "code", "func": 2, "entry": True, "insns": [["nop"]] * rng.randint(1, 2), "syms": [{"name": "B", "at_end": False}]},
+        {"kind": "code", "func": 2, "insns": [["ret"]], "syms": [{"name": "B2", "at_end": False}]},
+    ]
+    which = rng.choice([2, 4, 2, 4, None])
+    edits = [] if which is None else [{"op": "delete", "block": which, "off": 0, "len": len(text[which]["insns"])}]
+    if rng.random() < 0.3:
+        edits.append({"op": "insert", "block": 1, "off": 0, "asm": "nop"})
+    return {"with_deletion": True, "case": {"isa": "X64", "ff": "ELF", "text": text, "externs": ["ext_a"], "edits": edits, "binary_type": rng.choice([["DYN"], ["EXEC"]])}}
+
+
+def check_with_deletion(ctx, g):
+    """retargeting and block deletions in one apply(): the call whose operand was A names B afterwards and its edge
+    leads to the block B designates then"""
+    import logging
+
+    import gtirb
+    import gtirb_functions
+    from gtirb_rewriting import RewritingContext
+
+    logging.disable(logging.CRITICAL)
+    case = LE.strip_case(g["case"])
+    payload = dict(g, case=case)
+    ctx.case(payload, sample=payload if len(ctx.samples) < 5 else None, nontrivial=True)
+    ctx.count("retarget-with-deletion")
+    B = emodify.build(json.loads(json.dumps(case)))
+    m = B.m
+    rc = RewritingContext(m, gtirb_functions.Function.build_functions(m))
+    emodify.register_edits(B, rc, case["edits"])
+    rc.retarget_symbol_uses(B.sym["A"], B.sym["B"])
+    try:
+        rc.apply()
+    except Exception as e:  # noqa: BLE001
+        ctx.violation("C18:with-deletion:raises", "retarget A->B together with %s raised %s: %s" % (case["edits"], type(e).__name__, str(e)[:100]), payload)
+        return
+    main = B.sym["main"].referent
+    newref = B.sym["B"].referent
+    calls = [e for e in m.ir.cfg if e.label and e.label.type == gtirb.Edge.Type.Call and isinstance(e.source, gtirb.CodeBlock) and e.source.address is not None
+             and main.address <= e.source.address < main.address + 16 and e.source.section is main.section and e.source.address < B.sym["m2"].referent.address]
+    ops = [ex.symbol.name for bi in m.byte_intervals for off, ex in bi.symbolic_expressions.items()
+           if isinstance(ex, gtirb.SymAddrConst) and bi.address is not None and main.address <= bi.address + off < B.sym["m2"].referent.address]
+    if ops != ["B"]:
+        ctx.violation("C18:with-deletion:operand", "after retargeting A->B (with %s) the call's operand names %s" % (case["edits"], ops), payload)
+    if len(calls) != 1 or calls[0].target is not newref:
+        ctx.violation("C18:with-deletion:edge", "after retargeting A->B (with %s) the call edge leads to %s, B designates the block at %s"
+                      % (case["edits"], [getattr(e.target, "address", None) for e in calls], getattr(newref, "address", None)), payload)
+
+
 def run(ctx):
+    for _ in range(ctx.budget(40, 800)):
+        check_with_deletion(ctx, gen_with_deletion(ctx.rng))
     pending = []
     for _ in range(ctx.budget(1000, 25000)):
         check_case(ctx, gen(ctx.rng), pending)
@@ -363,6 +432,13 @@ def run(ctx):
 
 
 def replay(ctx, payload):
+    inner = payload.get("case", payload)
+    if isinstance(inner, dict) and inner.get("with_deletion"):
+        check_with_deletion(ctx, inner)
+        return
+    if payload.get("with_deletion"):
+        check_with_deletion(ctx, payload)
+        return
     pending = []
     check_case(ctx, payload.get("case", payload) if "req" in payload.get("case", {}) else payload, pending)
     flush(ctx, pending)
